@@ -21,7 +21,8 @@ pub enum Step {
     Append(Spec),
     Prepend(Spec),
     Insert(usize, Spec),
-    /// extend from an iterator with size_hint kind 0 exact / 1 (0,Some) / 2 (0,None)
+    /// extend from an iterator with size_hint kind 0 exact / 1 (0,Some(rem)) / 2 (0,None) / 3 (0,Some(MAX)) / 4 (rem/2,None) /
+    /// 5 (rem/2,Some(MAX)) / 6 (min(rem,1),Some(MAX-3))
     Extend(Bits, u8),
     /// subject := collect()
     Collect(Bits, u8),
@@ -418,7 +419,13 @@ impl Iterator for HintIter {
         match self.kind {
             0 => (rem, Some(rem)),
             1 => (0, Some(rem)),
-            _ => (0, None),
+            2 => (0, None),
+            // the shapes of filter / take_while / chain adaptors over huge ranges: a lower bound that under-reports, an
+            // upper bound that is absent or astronomically large (all within the Iterator contract)
+            3 => (0, Some(usize::MAX)),
+            4 => (rem / 2, None),
+            5 => (rem / 2, Some(usize::MAX)),
+            _ => (rem.min(1), Some(usize::MAX - 3)),
         }
     }
 }
@@ -709,7 +716,7 @@ pub fn gen_step(ty: usize, n: usize, mode: Mode, max_len: usize, rng: &mut Rng) 
             10 => Step::Insert(rng.below(n + 1), splice_operand(room, rng)),
             11 => {
                 let k = rng.below(room.min(70) + 1);
-                Step::Extend(gen::random_bits(k, rng), rng.below(3) as u8)
+                Step::Extend(gen::random_bits(k, rng), rng.below(7) as u8)
             }
             12 => {
                 let k = match rng.below(3) {
@@ -717,7 +724,7 @@ pub fn gen_step(ty: usize, n: usize, mode: Mode, max_len: usize, rng: &mut Rng) 
                     1 => target(rng),
                     _ => rng.below(limit.min(300) + 1),
                 };
-                Step::Collect(gen::random_bits(k, rng), rng.below(3) as u8)
+                Step::Collect(gen::random_bits(k, rng), rng.below(7) as u8)
             }
             13 => Step::SplitOff(rng.below(n + 1)),
             14 | 15 | 16 => {
